@@ -388,8 +388,8 @@ pub fn check_cmd(args: CheckArgs) -> i32 {
         let kmax = if tier == Tier::Thorough { 3 } else { 2 };
         let mut cover_bases: Vec<(&Entry, bool, usize)> = corpus.k0.iter().map(|e| (e, true, kmax)).collect();
         for (gi, e) in corpus.g.iter().enumerate() {
-            // quick tier: of the 5- and 6-chamber extras only the known-euclidean ones (K+) get covers
-            if gi >= corpus.extra_from && tier != Tier::Thorough && !kp[gi] {
+            // quick tier: of the 5- and 6-chamber extras the known-euclidean ones (K+) and a seeded eighth of the others get covers
+            if gi >= corpus.extra_from && tier != Tier::Thorough && !kp[gi] && crate::prng::hmix(&[seed, 0xC0FE, gi as u64]) % 8 != 0 {
                 continue;
             }
             if kp[gi] || census_g[gi].interesting() {
